@@ -860,6 +860,14 @@ class Phase(Angle):
             result = quantity.__array_ufunc__(function, method, *inputs, **kwargs)
             return phase_out.from_angles(result, out=phase_out)
 
+    def __array_function__(self, function, types, args, kwargs):
+        # np.sort would sort a copy in place by the structured dtype, np.ptp
+        # would reduce the single-double value; use the two-part methods.
+        if function in {np.sort, np.argsort, np.ptp} and args and args[0] is self:
+            kwargs = {k: v for k, v in kwargs.items() if k in {"axis", "keepdims"}}
+            return getattr(self, function.__name__)(*args[1:], **kwargs)
+        return super().__array_function__(function, types, args, kwargs)
+
     def _new_view(self, obj=None, unit=None):
         # If the unit is not right, we should ensure we change our two-float
         # dtype to a single float.
